@@ -320,7 +320,7 @@ func stepStrings(alpha string, maxLen int, atMostOne byte) []string {
 	return out
 }
 
-func plans(tier string) []mc.Plan {
+func basePlans(tier string) []mc.Plan {
 	k := 1
 	if tier == "thorough" {
 		k = 2
@@ -376,6 +376,16 @@ func plans(tier string) []mc.Plan {
 		}
 	}
 	return ps
+}
+
+// plans adds, to every scenario, a twin explored relative to the reversed default schedule (a
+// second reference schedule for the deviation bound).
+func plans(tier string) []mc.Plan {
+	ps := basePlans(tier)
+	if tier == "thorough" {
+		return mc.WithReversed(ps, 1)
+	}
+	return mc.WithReversed(ps, -1)
 }
 
 func init() {
